@@ -238,6 +238,14 @@ func c20Body(t *testing.T, combos [][]int, withStop bool, bound int) mc.Body {
 			var trace []string
 			s.gates = &gateSet{}
 			s.gates.install()
+			// one more scheduling point: the moment a reply (acknowledgement or read result) leaves the store
+			stNc := inst.StNc
+			nats.SetPublishHook(func(nc *nats.Conn, subj string) {
+				if nc == stNc && strings.HasPrefix(subj, "_INBOX.") {
+					vgate.Gate("reply.publish", "")
+				}
+			})
+			defer nats.SetPublishHook(nil)
 			s.choose = bound > 0
 			s.trace = &trace
 			var wg sync.WaitGroup
@@ -405,7 +413,7 @@ func TestC20(t *testing.T) {
 				Rule: "the triples {W1,W2,R}, {W1,W2,V}, {W1,R,V}, {W2,R,V}: all schedules with at most 3 preemptions; same oracles"},
 				c20Body(t, c20Triples(false)[:4], false, 3))
 		}
-		rule := "threads = concurrent clients of one real store: W1 node-point writer (write, read-own-write, write), W2 edge-point writer, R reader (monotonic reads), V admin.storeVerify, X a client whose requests must be refused (new edge without node type, self edge, NaN) next to W1 and W2 / R%s; all triples; scheduling points = every message delivery, every SQL operation and every writeLock.Lock in store/sqlite.go; all schedules with at most %d preemptions; oracles: every request answered (no deadlock), acknowledged writes visible, reads never go back, final content = newest acknowledged writes, hashes consistent, storeMaint has nothing to repair"
+		rule := "threads = concurrent clients of one real store: W1 node-point writer (write, read-own-write, write), W2 edge-point writer, R reader (monotonic reads), V admin.storeVerify, X a client whose requests must be refused (new edge without node type, self edge, NaN) next to W1 and W2 / R%s; all triples; scheduling points = every message delivery, every SQL operation and every writeLock.Lock in store/sqlite.go, and every reply leaving the store; all schedules with at most %d preemptions; oracles: every request answered (no deadlock), acknowledged writes visible, reads never go back, final content = newest acknowledged writes, hashes consistent, storeMaint has nothing to repair"
 		extra := ", M admin.storeMaint (with V and a writer / reader)"
 		if thorough() {
 			extra = ", M admin.storeMaint, more triples with M and X, and W1 W2 R V together"
